@@ -122,6 +122,56 @@ func repoGoroutines(dump string, max int) string {
 	return tailStr(b.String(), max)
 }
 
+// deepProbe exercises the other services on the canary connection: every request must be answered (a
+// ServiceFault is an answer). A lock left behind by somebody else's request shows up here.
+func (e *c29Env) deepProbe() bool {
+	if e.canary == nil {
+		return false
+	}
+	ask := func(req ua.Request) interface{} {
+		v, err := e.canary.Request(req, e.canTok, 3*time.Second)
+		if err != nil {
+			return nil
+		}
+		return v
+	}
+	v := ask(&ua.BrowseRequest{View: &ua.ViewDescription{ViewID: ua.NewTwoByteNodeID(0)}, NodesToBrowse: []*ua.BrowseDescription{{NodeID: ua.NewNumericNodeID(0, id.ObjectsFolder),
+		BrowseDirection: 0, ReferenceTypeID: ua.NewTwoByteNodeID(0), IncludeSubtypes: true, ResultMask: 0x3f}}})
+	if v == nil {
+		return false
+	}
+	if v = ask(&ua.WriteRequest{NodesToWrite: []*ua.WriteValue{{NodeID: ua.NewStringNodeID(e.ns, "v0"), AttributeID: ua.AttributeIDValue, Value: &ua.DataValue{EncodingMask: 1, Value: ua.MustVariant(int64(1))}}}}); v == nil {
+		return false
+	}
+	v = ask(&ua.CreateSubscriptionRequest{RequestedPublishingInterval: 1000, RequestedLifetimeCount: 100, RequestedMaxKeepAliveCount: 10, PublishingEnabled: false})
+	if v == nil {
+		return false
+	}
+	sid := uint32(0)
+	if r, ok := v.(*ua.CreateSubscriptionResponse); ok {
+		sid = r.SubscriptionID
+	}
+	v = ask(&ua.CreateMonitoredItemsRequest{SubscriptionID: sid, ItemsToCreate: []*ua.MonitoredItemCreateRequest{{ItemToMonitor: &ua.ReadValueID{NodeID: ua.NewStringNodeID(e.ns, "v0"), AttributeID: ua.AttributeIDValue, DataEncoding: &ua.QualifiedName{}},
+		MonitoringMode: ua.MonitoringModeReporting, RequestedParameters: &ua.MonitoringParameters{ClientHandle: 1, SamplingInterval: 100, QueueSize: 1, Filter: ua.NewExtensionObject(nil)}}}})
+	if v == nil {
+		return false
+	}
+	mid := uint32(0)
+	if r, ok := v.(*ua.CreateMonitoredItemsResponse); ok && len(r.Results) == 1 {
+		mid = r.Results[0].MonitoredItemID
+	}
+	if v = ask(&ua.SetMonitoringModeRequest{SubscriptionID: sid, MonitoringMode: ua.MonitoringModeSampling, MonitoredItemIDs: []uint32{mid}}); v == nil {
+		return false
+	}
+	if v = ask(&ua.DeleteMonitoredItemsRequest{SubscriptionID: sid, MonitoredItemIDs: []uint32{mid}}); v == nil {
+		return false
+	}
+	if v = ask(&ua.DeleteSubscriptionsRequest{SubscriptionIDs: []uint32{sid}}); v == nil {
+		return false
+	}
+	return true
+}
+
 // check asks the canary; on failure decides between crash, hang and load.
 func (e *c29Env) check() bool {
 	c := e.c
@@ -136,7 +186,7 @@ func (e *c29Env) check() bool {
 		_, ok := v.(*ua.ReadResponse)
 		return ok
 	}
-	if probe(3 * time.Second) {
+	if probe(3*time.Second) && e.deepProbe() {
 		e.last = nil
 		return true
 	}
@@ -420,6 +470,26 @@ func c29Run(c *fw.Ctx) error {
 		}
 	}
 
+	// 2b. stateful multi-session scenarios
+	nsc := int64(c.Pick(48, 4000))
+	for k := int64(0); k < nsc; k++ {
+		i := idx
+		idx++
+		if !mine(i) {
+			continue
+		}
+		r := c.Rng("c29scn", i)
+		cs := c29Case{Kind: "scenario", Index: i, Session: true}
+		c.Journal(i, cs)
+		c29Scenario(e, r, &cs)
+		e.last = append(e.last, cs)
+		c.Eval(1)
+		c.Class("scenario", 1)
+		c.Nontrivial(fmt.Sprintf("scenario:%d", i))
+		e.check()
+		c.Done(i)
+	}
+
 	// 3. raw fuzz: mutated chunks on an open channel
 	nf := int64(c.Pick(300, 30000))
 	for k := int64(0); k < nf; k++ {
@@ -444,6 +514,160 @@ func c29Run(c *fw.Ctx) error {
 	c.Extra("sum_server_restarts", e.restarts)
 	c.Sample(map[string]interface{}{"request_types": len(types), "targeted": len(c29Targeted())})
 	return nil
+}
+
+// c29Scenario is one stateful multi-session history: up to three attacker sessions issue a random sequence of
+// subscription, monitored item, publish, write, session and connection operations with ids drawn from their
+// own, each other's and unknown ids, with short publishing intervals and pauses so that the timer-driven paths
+// of the server run while the sessions change under them.
+func c29Scenario(e *c29Env, r *rand.Rand, cs *c29Case) {
+	type sess struct {
+		ch  *refpeer.Channel
+		tok *ua.NodeID
+	}
+	ss := make([]*sess, 3)
+	open := func(i int) {
+		if ss[i] != nil && ss[i].ch != nil {
+			ss[i].ch.Close()
+		}
+		ss[i] = &sess{}
+		if ch, tok, err := refpeer.OpenSession(e.addr, e.endpoint); err == nil {
+			ss[i].ch, ss[i].tok = ch, tok
+		}
+	}
+	for i := range ss {
+		open(i)
+	}
+	defer func() {
+		for _, x := range ss {
+			if x != nil && x.ch != nil {
+				x.ch.Close()
+			}
+		}
+	}()
+	var subs, items []uint32
+	subOf := map[uint32]uint32{} // item -> subscription
+	pick := func(ids []uint32) uint32 {
+		switch k := r.Intn(10); {
+		case k == 0 || len(ids) == 0:
+			return uint32(r.Intn(5)) * 100000
+		default:
+			return ids[r.Intn(len(ids))]
+		}
+	}
+	var steps []string
+	note := func(f string, a ...interface{}) { steps = append(steps, fmt.Sprintf(f, a...)) }
+	defer func() { cs.Desc = strings.Join(steps, "; ") }()
+	nsteps := 12 + r.Intn(30)
+	for k := 0; k < nsteps; k++ {
+		si := r.Intn(len(ss))
+		x := ss[si]
+		if x.ch == nil {
+			open(si)
+			if x = ss[si]; x.ch == nil {
+				continue
+			}
+		}
+		ask := func(req ua.Request, wait time.Duration) interface{} {
+			v, err := x.ch.Request(req, x.tok, wait)
+			if err != nil {
+				open(si) // connection unusable (timeout, fault that closed it): start over with a new session
+				return nil
+			}
+			return v
+		}
+		node := ua.NewStringNodeID(e.ns, fmt.Sprintf("v%d", r.Intn(5)))
+		switch op := r.Intn(20); op {
+		case 0, 1:
+			iv := []float64{1, 5, 10, 20, 50}[r.Intn(5)]
+			v := ask(&ua.CreateSubscriptionRequest{RequestedPublishingInterval: iv, RequestedLifetimeCount: uint32([]int{0, 3, 10, 1000}[r.Intn(4)]),
+				RequestedMaxKeepAliveCount: uint32([]int{0, 1, 2, 5}[r.Intn(4)]), PublishingEnabled: r.Intn(4) > 0, MaxNotificationsPerPublish: uint32(r.Intn(3))}, 2*time.Second)
+			if rr, ok := v.(*ua.CreateSubscriptionResponse); ok {
+				subs = append(subs, rr.SubscriptionID)
+				note("s%d CreateSubscription(%v)=%d", si, iv, rr.SubscriptionID)
+			}
+		case 2, 3:
+			sid := pick(subs)
+			v := ask(&ua.CreateMonitoredItemsRequest{SubscriptionID: sid, ItemsToCreate: []*ua.MonitoredItemCreateRequest{{ItemToMonitor: &ua.ReadValueID{NodeID: node, AttributeID: ua.AttributeIDValue, DataEncoding: &ua.QualifiedName{}},
+				MonitoringMode: ua.MonitoringMode(r.Intn(4)), RequestedParameters: &ua.MonitoringParameters{ClientHandle: uint32(r.Intn(5)), SamplingInterval: float64(r.Intn(20)), QueueSize: uint32(r.Intn(3)), Filter: ua.NewExtensionObject(nil)}}}}, 2*time.Second)
+			note("s%d CreateMonitoredItems(sub %d)", si, sid)
+			if rr, ok := v.(*ua.CreateMonitoredItemsResponse); ok {
+				for _, it := range rr.Results {
+					if it != nil && it.StatusCode == ua.StatusOK {
+						items = append(items, it.MonitoredItemID)
+						subOf[it.MonitoredItemID] = sid
+					}
+				}
+			}
+		case 4:
+			it := pick(items)
+			note("s%d SetMonitoringMode(item %d)", si, it)
+			ask(&ua.SetMonitoringModeRequest{SubscriptionID: []uint32{subOf[it], pick(subs)}[r.Intn(2)], MonitoringMode: ua.MonitoringMode(r.Intn(4)), MonitoredItemIDs: []uint32{it, pick(items)}}, 2*time.Second)
+		case 5:
+			it := pick(items)
+			note("s%d DeleteMonitoredItems(item %d)", si, it)
+			ask(&ua.DeleteMonitoredItemsRequest{SubscriptionID: []uint32{subOf[it], pick(subs)}[r.Intn(2)], MonitoredItemIDs: []uint32{it}}, 2*time.Second)
+		case 6:
+			it := pick(items)
+			note("s%d ModifyMonitoredItems(item %d)", si, it)
+			ask(&ua.ModifyMonitoredItemsRequest{SubscriptionID: subOf[it], ItemsToModify: []*ua.MonitoredItemModifyRequest{{MonitoredItemID: it, RequestedParameters: &ua.MonitoringParameters{ClientHandle: 9, SamplingInterval: 1, QueueSize: 1, Filter: ua.NewExtensionObject(nil)}}}}, 2*time.Second)
+		case 7:
+			sid := pick(subs)
+			note("s%d DeleteSubscriptions(%d)", si, sid)
+			ask(&ua.DeleteSubscriptionsRequest{SubscriptionIDs: []uint32{sid}}, 2*time.Second)
+		case 8:
+			sid := pick(subs)
+			note("s%d ModifySubscription/SetPublishingMode(%d)", si, sid)
+			ask(&ua.ModifySubscriptionRequest{SubscriptionID: sid, RequestedPublishingInterval: float64(r.Intn(30)), RequestedLifetimeCount: uint32(r.Intn(10)), RequestedMaxKeepAliveCount: uint32(r.Intn(4))}, 2*time.Second)
+			ask(&ua.SetPublishingModeRequest{PublishingEnabled: r.Intn(2) == 0, SubscriptionIDs: []uint32{sid, pick(subs)}}, 2*time.Second)
+		case 9:
+			sid := pick(subs)
+			note("s%d Republish/Transfer(%d)", si, sid)
+			ask(&ua.RepublishRequest{SubscriptionID: sid, RetransmitSequenceNumber: uint32(r.Intn(4))}, 2*time.Second)
+			ask(&ua.TransferSubscriptionsRequest{SubscriptionIDs: []uint32{sid}, SendInitialValues: r.Intn(2) == 0}, 2*time.Second)
+		case 10, 11, 12:
+			n := 1 + r.Intn(4)
+			note("s%d %d x Publish (not awaited)", si, n)
+			for j := 0; j < n; j++ {
+				var acks []*ua.SubscriptionAcknowledgement
+				if r.Intn(2) == 0 {
+					acks = append(acks, &ua.SubscriptionAcknowledgement{SubscriptionID: pick(subs), SequenceNumber: uint32(r.Intn(5))})
+				}
+				if _, err := x.ch.SendRequest(&ua.PublishRequest{SubscriptionAcknowledgements: acks}, x.tok, refpeer.SendOpts{}); err != nil {
+					open(si)
+					break
+				}
+			}
+		case 13, 14:
+			note("s%d Write", si)
+			ask(&ua.WriteRequest{NodesToWrite: []*ua.WriteValue{{NodeID: node, AttributeID: ua.AttributeIDValue, Value: &ua.DataValue{EncodingMask: 1, Value: ua.MustVariant(int64(r.Intn(1000)))}}}}, 2*time.Second)
+		case 15:
+			del := r.Intn(2) == 0
+			note("s%d CloseSession(deleteSubscriptions=%v), new session", si, del)
+			x.ch.Request(&ua.CloseSessionRequest{DeleteSubscriptions: del}, x.tok, 2*time.Second)
+			if r.Intn(2) == 0 { // keep using the closed session's token for a moment
+				x.ch.Request(&ua.PublishRequest{}, x.tok, 100*time.Millisecond)
+			}
+			open(si)
+		case 16:
+			note("s%d connection dropped, new session", si)
+			open(si)
+		case 17:
+			sid := pick(subs)
+			note("s%d Call GetMonitoredItems(%d)", si, sid)
+			ask(&ua.CallRequest{MethodsToCall: []*ua.CallMethodRequest{{ObjectID: ua.NewNumericNodeID(0, id.Server), MethodID: ua.NewNumericNodeID(0, id.Server_GetMonitoredItems), InputArguments: []*ua.Variant{ua.MustVariant(sid)}}}}, 2*time.Second)
+		default:
+			d := time.Duration(20+r.Intn(120)) * time.Millisecond
+			note("pause %v", d)
+			time.Sleep(d)
+		}
+		if !e.child.Alive() {
+			note("server process gone after this step")
+			return
+		}
+	}
+	// let keep-alive and lifetime timers of whatever is left run
+	time.Sleep(150 * time.Millisecond)
 }
 
 // c29Raw sends a valid request whose chunk bytes were mutated (the channel is None/None, so the
@@ -484,7 +708,7 @@ func init() {
 	fw.Register("C29", fw.Spec{
 		Plan: func(tier string) fw.Plan {
 			p := fw.Plan{Batches: 8, TimeoutS: 1200, MinNontrivial: 300, Level: "exploration",
-				Rule:        "real server in a child process per batch; the independent scripted client sends (1) targeted requests (unknown/foreign ids, publishing intervals 0/NaN/negative/huge, zero counts, empty members, 100000 operands, attribute writes that corrupt later reads, subscriptions on dropped connections, clients that never read), (2) every registered request type with generated field values with and without a session, (3) raw mutated chunks; a canary client on its own connection must get a Read answered after each group; oracle: the server process is alive and the canary is answered; a silent server is a hang only if its CPU clock stands still (goroutine dump attached), otherwise inconclusive; distinct = distinct requests sent",
+				Rule:        "real server in a child process per batch; the independent scripted client sends (1) targeted requests (unknown/foreign ids, publishing intervals 0/NaN/negative/huge, zero counts, empty members, 100000 operands, attribute writes that corrupt later reads, subscriptions on dropped connections, clients that never read), (2) every registered request type with generated field values with and without a session, (3) stateful multi-session scenarios (3 sessions x 12-40 random subscription / monitored item / publish / write / CloseSession / connection-drop operations on own, foreign and unknown ids with publishing intervals of 1-50 ms and pauses), (4) raw mutated chunks; after each group a canary client on its own connection must get answers to Read, Browse, Write and a CreateSubscription/CreateMonitoredItems/SetMonitoringMode/DeleteMonitoredItems/DeleteSubscriptions cycle; oracle: the server process is alive and the canary is answered; a silent server is a hang only if its CPU clock stands still (goroutine dump attached), otherwise inconclusive; distinct = distinct requests sent",
 				Assumptions: []string{"the canary waits 3 s and retries 4 times on fresh connections before a verdict"}}
 			if tier == "thorough" {
 				p.Batches, p.TimeoutS, p.MinNontrivial = 16, 3400, 20000
